@@ -20,9 +20,13 @@ EXPLANATION = (
 )
 ASSUMPTIONS = ["redb write transactions are atomic and durable at commit (trusted)", "an uncommitted transaction is invisible after a crash"]
 
+
 SI = "<store::fs::StoreInstance<'a> as ranger::Store<sync::SignedEntry>>::"
 # MayCommit is computed from the call graph (a body that reaches TransactionAndTables::commit); no function is assumed to commit
 COMMITTERS = set()
+
+
+EXPLANATION += ' (R5) no storage-layer result is discarded anywhere in the crate (one tolerated site, named, doubles as the positive example).'
 
 
 class Effects:
